@@ -37,7 +37,12 @@ PKG = None
 
 
 def _site(code):
-    return "%s:%s" % (os.path.basename(code.co_filename), code.co_name)
+    name = code.co_name
+    if name.startswith("<"):
+        # <genexpr>, <listcomp>, <lambda>: named after the function they are written in
+        outer = [p for p in code.co_qualname.split(".") if not p.startswith("<")]
+        name = outer[-1] if outer else name
+    return "%s:%s" % (os.path.basename(code.co_filename), name)
 
 
 def _depth_and_frames(frame):
@@ -90,7 +95,8 @@ class Meter:
             # keep the common prefix: frames that were on the stack at every observation since the budget ran out
             cur = [(i, id(fr), _site(fr.f_code)) for i, fr in ids]
             n = 0
-            while n < len(cur) and n < len(self._stack) and cur[n][:2] == self._stack[n][:2]:
+            # (frame objects are recycled: the same id at the same depth may be another function's frame)
+            while n < len(cur) and n < len(self._stack) and cur[n] == self._stack[n]:
                 n += 1
             self._stack = self._stack[:n]
         if self.over >= WINDOW:
